@@ -249,7 +249,8 @@ def _limit(size_hint):
 
 
 def _prop():
-    return st.one_of(st.sampled_from(PROPS_DYADIC), st.sampled_from(PROPS_DYADIC + PROPS_OTHER))
+    # 0 and the tiny proportion disable / empty the step; keep them present but not dominant
+    return st.sampled_from(PROPS_DYADIC + PROPS_OTHER + [0.25, 0.5, 0.5, 0.75, 1.0, 1.0, 1.0, 1.0])
 
 
 def _warp_limit(size_hint):
@@ -285,7 +286,7 @@ def _cfg(draw, T, F, warp=True, masks=True, order=False):
         "max_time_mask": draw(_limit(T)) if masks else 0,
         "max_freq_mask": draw(_limit(F)) if masks else 0,
         "max_time_mask_proportion": draw(_prop()) if masks else 0.0,
-        "num_time_mask": draw(st.sampled_from([0, 1, 2, 3, 5])) if masks else 0,
+        "num_time_mask": draw(st.sampled_from([0, 1, 1, 2, 2, 3, 5])) if masks else 0,
         "num_time_mask_proportion": draw(_prop()) if masks else 0.0,
         "num_freq_mask": draw(st.sampled_from([0, 1, 2, 3])) if masks else 0,
         "interpolation_order": draw(st.integers(1, 3)) if order else 1,
